@@ -42,6 +42,27 @@ def scratch_root() -> Path:
     raise HarnessError("no writable scratch directory")
 
 
+class guarded:
+    """wraps a worker function for multiprocessing pools: an exception that cannot be pickled (custom constructor
+    arguments) would never reach the parent and the pool would wait for ever; it is re-raised as a RuntimeError that
+    carries the original type, message and traceback frames"""
+
+    def __init__(self, fn):
+        self.fn = fn
+
+    def __call__(self, item):
+        try:
+            return self.fn(item)
+        except Exception as e:
+            import pickle
+
+            try:
+                pickle.loads(pickle.dumps(e))
+            except Exception:
+                raise RuntimeError(f"{type(e).__name__}: {e}").with_traceback(e.__traceback__) from None
+            raise
+
+
 class Ctx:
     def __init__(self, prop_id: str, tier: str, seed: int, workers: int):
         self.prop_id = prop_id
@@ -121,7 +142,7 @@ class Ctx:
             for it in items:
                 yield fn(it)
             return
-        yield from self.pool().imap_unordered(fn, items, chunksize)
+        yield from self.pool().imap_unordered(guarded(fn), items, chunksize)
 
     def close(self):
         if self._pool is not None:
